@@ -14,7 +14,7 @@ def closer_deletions(chk, quick):
     """well-formed documents without math / verbatim / list regions (DocGen) that lost exactly one closer"""
     from harness import docs as D
     from harness.tlc import from_atoms
-    pools = {'Budget': 4 if quick else 5, 'TextPool': ['x', ' ', 't u'], 'ComPool': [], 'CmdNames': ['a', 'bb'], 'EnvNames': ['e', 'f'],
+    pools = {'Budget': 3 if quick else 5, 'TextPool': ['x', ' ', 't u'], 'ComPool': [], 'CmdNames': ['a', 'bb'], 'EnvNames': ['e', 'f'],
              'ListNames': [], 'MathKinds': [], 'MEnvNames': [], 'VerbNames': [], 'Leaves': [], 'Labels': [''], 'MaxSib': 2, 'MaxArgs': 2, 'MaxDepth': 3}
     recs, _ = D.generate(chk, 'wfdocs', pools, ['C01_RoundTrip', 'C02_Structure'])
     out = []
